@@ -911,6 +911,12 @@ theorem V2KeysOk_of_canonical (s : Store)
 
 /-! ### C04: location framing, v1 layouts -/
 
+theorem get_cons (k' : Bytes) (vs : List Bytes) (s : Store) (k : Bytes) :
+    Store.get ((k', vs) :: s) k = if k' = k then vs else Store.get s k := by
+  unfold Store.get
+  simp only [List.find?_cons]
+  by_cases h : k' = k <;> simp [h]
+
 section frame
 variable {b : Backend} {s₁ s₂ : Store} {l : Bytes}
   (hl : l.length = 2)
